@@ -4,8 +4,9 @@ from __future__ import annotations
 from typing import List, Optional, Tuple
 
 from .. import terms as tm
-from ..interp import Interp
-from ..lib import comparisons, fmt, is_call_to, norm_cmp, per_element
+from ..interp import Interp, Result
+from ..lib import comparisons, fmt, index_position, index_source, \
+    is_call_to, norm_cmp, per_element
 from ..terms import T, const
 from .c11 import _conj, _ite_chain
 
@@ -27,7 +28,13 @@ filter with int(delta); meters -> path filter with tol = delta*rel_tol;
 degrees/radians -> angle filter with degrees = (unit is degrees) and the same
 tol; other units raise FilterException; an empty list raises before the
 return; all_pairs reaches every callee. C10.7 angle bounds are checked before
-any conversion, and delta and tol are converted with the same function.
+any conversion (each bound alone triggers the refusal), and delta and tol are
+converted with the same function. C10.8 the vectorised all-pairs angle search,
+piece by piece (position algebra on index terms): every pose but the last is a
+start pose i; its candidates are exactly the later poses i+1..n-1; R_i is
+paired with every candidate; the compared blocks are poses[.][:3, :3]; the
+angle is the per-candidate norm of the rotation vector of R_a^-1 R_b; a hit at
+candidate position k is reported as the pair (i, i+1+k).
 """
 UNDECIDED = [
     "minimality of j and maximality of the chain as semantic facts for all "
@@ -56,7 +63,7 @@ MANIFEST = dict(
               "+ argument provenance",
 )
 FLOORS = {"C10.1": 3, "C10.2": 2, "C10.3": 4, "C10.4": 2, "C10.5": 1,
-          "C10.6": 12, "C10.7": 4}
+          "C10.6": 12, "C10.7": 4, "C10.8": 6}
 
 FI = "evo.core.filters.filter_pairs_by_index"
 FP = "evo.core.filters.filter_pairs_by_path"
@@ -420,6 +427,160 @@ def _by_angle(ctx, prog):
         ctx.ob("C10.7", f, okm,
                f"[degrees={deg}] delta and tol are converted with the same "
                f"function", key=f"C10.7:same-conversion:{deg}")
+        if not deg:
+            _all_pairs_angle_search(ctx, f, r, exts[0], masks)
+
+
+def _rot_block(t: T):
+    """pose term if t == pose[:3, :3]; ("wrong", text) for another constant
+    block; None if not a block access"""
+    if t.op != "sub" or t.args[1].op != "tuple" or len(t.args[1].args) != 2:
+        return None
+    a, b = t.args[1].args
+    if a.op != "slice" or b.op != "slice":
+        return None
+    want = T("slice", tm.NONE, const(3), tm.NONE)
+    if a is want and b is want:
+        return t.args[0]
+    return ("wrong", fmt(t.args[1]))
+
+
+def _all_pairs_angle_search(ctx, f, r: Result, ext, masks):
+    """C10.8: for every start pose i the candidates are *all later poses*
+    j = i+1 .. n-1, their angle is that of R_i^-1 R_j (rotation blocks of
+    poses i and j), and a hit at position k of the candidate list is reported
+    as the pair (i, i+1+k)."""
+    def undecided(why):
+        ctx.undecidable("C10.8", ext, f"angle/all-pairs search: {why}")
+    comp = ext.data["args"][0]
+    if comp.op != "comp" or len(comp.args[2]) != 1 or comp.args[3] or \
+            comp.args[1].op != "tuple" or len(comp.args[1].args) != 2:
+        return undecided(f"pair construction not recognised: "
+                         f"{fmt(comp)[:100]}")
+    first, second = comp.args[1].args
+    it3, l3 = comp.args[2][0]
+    # outer loop: every pose but (possibly) the last, in order
+    op = index_position(first)
+    if op is None or op[2] is None:
+        return undecided(f"start index {fmt(first)[:80]}")
+    lid, off0, cnt0 = op
+    ok = off0 == 0 and cnt0 in (0, -1)
+    ctx.ob("C10.8", ext, ok,
+           "angle/all-pairs: every pose except the last is tried as start "
+           "pose, the pair's first index is that pose" if ok else
+           f"angle/all-pairs: start poses are k+{off0} for k < n{cnt0:+d} — "
+           f"not every pose is tried as the start of a pair",
+           key="C10.8:starts")
+    # second index: elem of (argwhere(mask) + offset).flatten().tolist()
+    src = it3
+    while is_call_to(src, ".tolist", ".flatten", ".ravel", "builtins.list"):
+        src = tm.method_recv(src) if (tm.callee_name(src) or "")\
+            .startswith(".") else src.args[1][0]
+    if second is not T("elem", it3, l3) or src.op != "binop" or \
+            src.args[0] not in ("Add", "Sub") or len(masks) != 1:
+        return undecided(f"end index {fmt(second)[:80]}")
+    aw, off = (src.args[1], src.args[2]) if src.args[1] is masks[0] else \
+        (src.args[2], src.args[1])
+    if aw is not masks[0]:
+        return undecided(f"end index {fmt(src)[:80]}")
+    want_off = T("binop", "Add", first, const(1))
+    ok = src.args[0] == "Add" and off is want_off
+    ctx.ob("C10.8", ext, ok,
+           "angle/all-pairs: a hit at position k of the candidates is "
+           "reported as pose i+1+k" if ok else
+           f"angle/all-pairs: hits are reported as argwhere "
+           f"{'+' if src.args[0] == 'Add' else '-'} {fmt(off)} — the "
+           f"candidates start at pose i+1, so the reported end index is "
+           f"shifted", key="C10.8:offset")
+    # the angles: norm(rotvec(Ri^-1 Rj)) over the candidate axis
+    ang = None
+    for p_ in (masks[0].args[1][0].args[1], masks[0].args[1][0].args[2]):
+        for q in (p_.args[1], p_.args[2]) if p_.op == "cmp" else ():
+            if any(is_call_to(x, ".as_rotvec", ".magnitude")
+                   for x in q.walk()):
+                ang = q
+    if ang is None:
+        return undecided("angle computation not found in the band test")
+    if is_call_to(ang, "numpy.linalg.norm"):
+        ax = dict(ang.args[2]).get("axis")
+        rv = ang.args[1][0]
+        okn = ax is not None and tm.is_const(ax) and ax.args[1] in (1, -1)
+        if not is_call_to(rv, ".as_rotvec"):
+            return undecided(f"angle {fmt(ang)[:80]}")
+        prod = tm.method_recv(rv)
+    elif is_call_to(ang, ".magnitude"):
+        okn, prod = True, tm.method_recv(ang)
+    else:
+        return undecided(f"angle {fmt(ang)[:80]}")
+    ctx.ob("C10.8", ext, okn,
+           "angle/all-pairs: one angle per candidate (norm of each rotation "
+           "vector)" if okn else
+           "angle/all-pairs: the rotation-vector norm is not taken per "
+           "candidate (axis)", key="C10.8:norm-axis")
+    if prod.op != "binop" or prod.args[0] != "Mult":
+        return undecided(f"relative rotation {fmt(prod)[:80]}")
+    fac = []
+    for side in (prod.args[1], prod.args[2]):
+        inv = is_call_to(side, ".inv")
+        base = tm.method_recv(side) if inv else side
+        if not is_call_to(base, "evo.core.lie_algebra.sst_rotation_from_"
+                          "matrix") or not base.args[1]:
+            return undecided(f"rotation operand {fmt(side)[:80]}")
+        arr = base.args[1][0]
+        if is_call_to(arr, "numpy.array", "numpy.asarray") and arr.args[1]:
+            arr = arr.args[1][0]
+        fac.append((inv, arr))
+    if sorted(i for i, _ in fac) != [False, True]:
+        ctx.ob("C10.8", ext, False,
+               "angle/all-pairs: the relative rotation is not R_a^-1 R_b "
+               "(exactly one factor must be inverted)",
+               key="C10.8:relative-rotation")
+        return
+    # one factor is pose i repeated, the other the candidates in order
+    roles = {}
+    for inv, arr in fac:
+        if arr.op == "binop" and arr.args[0] == "Mult" and \
+                arr.args[1].op == "list" and len(arr.args[1].args) == 1:
+            roles["i"] = (arr.args[1].args[0], arr.args[2])
+        elif arr.op == "comp" and len(arr.args[2]) == 1 and not arr.args[3]:
+            roles["j"] = arr
+        else:
+            return undecided(f"rotation stack {fmt(arr)[:80]}")
+    if set(roles) != {"i", "j"}:
+        return undecided("start / candidate rotation stacks not recognised")
+    blk_i = _rot_block(roles["i"][0])
+    blk_j = _rot_block(roles["j"].args[1])
+    cand, l2 = roles["j"].args[2][0]
+    if blk_i is None or blk_j is None:
+        return undecided("rotation block access not recognised")
+    wrong = [b for b in (blk_i, blk_j) if isinstance(b, tuple)]
+    ok = not wrong and blk_i is tm.sub(POSES, first) and \
+        blk_j is tm.sub(POSES, T("elem", cand, l2))
+    ctx.ob("C10.8", ext, ok,
+           "angle/all-pairs: the rotation blocks [:3, :3] of pose i and of "
+           "each candidate pose are compared" if ok else
+           f"angle/all-pairs: compared blocks are "
+           f"{wrong[0][1] if wrong else fmt(roles['i'][0])[:60]} / "
+           f"{fmt(roles['j'].args[1])[:60]} — expected poses[i][:3, :3] and "
+           f"poses[j][:3, :3]", key="C10.8:blocks")
+    # candidates: ids[i+1:] of ids = 0..n-1, and as many copies of R_i
+    okc = cand.op == "sub" and cand.args[1] is T(
+        "slice", want_off, tm.NONE, tm.NONE)
+    base_ids = cand.args[0] if cand.op == "sub" else None
+    src_ids = index_source(base_ids) if base_ids is not None else None
+    okc = okc and src_ids is not None and src_ids == (0, 0)
+    ctx.ob("C10.8", ext, bool(okc),
+           "angle/all-pairs: the candidates of pose i are all later poses "
+           "i+1 .. n-1" if okc else
+           f"angle/all-pairs: candidates are {fmt(cand)[:90]} — expected "
+           f"all poses after i", key="C10.8:candidates")
+    rep = roles["i"][1]
+    okr = is_call_to(rep, "builtins.len") and rep.args[1] and \
+        rep.args[1][0] is cand
+    ctx.ob("C10.8", ext, bool(okr),
+           "angle/all-pairs: R_i is paired with every candidate" if okr else
+           f"angle/all-pairs: R_i is repeated {fmt(rep)[:60]} times, not "
+           f"once per candidate", key="C10.8:pairing")
 
 
 def _dispatch(ctx, prog):
@@ -534,6 +695,37 @@ def _dispatch(ctx, prog):
 
 
 VARIANTS = [
+    dict(name="allpairs-angle-range-starts", file="evo/core/filters.py",
+         find="        start_indices = ids[:-1]",
+         replace="        start_indices = range(len(poses) - 1)",
+         expect="silent"),
+    dict(name="allpairs-angle-inverse-on-candidates",
+         file="evo/core/filters.py",
+         find="(rotations_i.inv() * rotations_j).as_rotvec()",
+         replace="(rotations_j.inv() * rotations_i).as_rotvec()",
+         expect="silent"),
+    dict(name="allpairs-angle-candidates-include-self",
+         file="evo/core/filters.py",
+         find="            end_indices = ids[offset:]",
+         replace="            end_indices = ids[i:]", expect="fire",
+         rule="C10.8"),
+    dict(name="allpairs-angle-offset-lost", file="evo/core/filters.py",
+         find="& (delta_angles <= upper_bound)) + offset",
+         replace="& (delta_angles <= upper_bound)) + i", expect="fire",
+         rule="C10.8"),
+    dict(name="allpairs-angle-translation-column",
+         file="evo/core/filters.py",
+         find="np.array([poses[j][:3, :3] for j in end_indices])",
+         replace="np.array([poses[j][:3, 1:4] for j in end_indices])",
+         expect="fire", rule="C10.8"),
+    dict(name="allpairs-angle-lower-bound-sign", file="evo/core/filters.py",
+         find="        lower_bound = delta - tol",
+         replace="        lower_bound = delta + tol", expect="fire",
+         rule="C10.3"),
+    dict(name="angle-bounds-never-refuse", file="evo/core/filters.py",
+         find="    if delta < bounds[0] or delta > bounds[1]:",
+         replace="    if delta < bounds[0] and delta > bounds[1]:",
+         expect="fire", rule="C10.7"),
     dict(name="path-strict", file="evo/core/filters.py",
          find="            if current_path >= delta:",
          replace="            if current_path > delta:",
